@@ -416,6 +416,17 @@ func filesOnDisk() string {
 	return strings.Join(parts, ",")
 }
 
+// openFF creates or opens the database with the history's block file size already in force
+// while openDB reconciles the files with the metadata (as a configured limit would be).
+func openFF(create bool) (database.DB, error) {
+	ffldb.VerifSetInitialMaxBlockFileSize(st.max)
+	defer ffldb.VerifSetInitialMaxBlockFileSize(0)
+	if create {
+		return database.Create("ffldb", st.dir, wire.BitcoinNet(st.net))
+	}
+	return database.Open("ffldb", st.dir, wire.BitcoinNet(st.net))
+}
+
 func exec(t []string) string {
 	if out, ok := chainExec(t); ok {
 		return out
@@ -429,7 +440,7 @@ func exec(t []string) string {
 		closeAll()
 		dirSeq++
 		st = &state{dir: filepath.Join(base(), fmt.Sprintf("db%d", dirSeq)), net: uint32(atoi(t[1])), max: uint32(atoi(t[2]))}
-		db, err := database.Create("ffldb", st.dir, wire.BitcoinNet(st.net))
+		db, err := openFF(true)
 		if err != nil {
 			panic("harness: create: " + err.Error())
 		}
@@ -469,6 +480,28 @@ func exec(t []string) string {
 		}
 		err := st.tx.Commit()
 		st.tx = nil
+		if err != nil {
+			return errCode(err)
+		}
+		f, o := ffldb.VerifWriteCursor(st.db)
+		return fmt.Sprintf("ok %d %d", f, o)
+	case "ocommit":
+		// Commit while every write to the NEXT block file fails: that file is a link to
+		// /dev/full (opens fine, every write answers ENOSPC), so a commit that rolls over
+		// into it takes the error path of writePendingAndCommit -> handleRollback.
+		if st.tx == nil {
+			panic("harness: ocommit without tx")
+		}
+		cf, _ := ffldb.VerifWriteCursor(st.db)
+		link := filepath.Join(st.dir, fmt.Sprintf("%09d.fdb", cf+1))
+		if err := os.Symlink("/dev/full", link); err != nil {
+			panic("harness: cannot obstruct " + link + ": " + err.Error())
+		}
+		err := st.tx.Commit()
+		st.tx = nil
+		if fi, e := os.Lstat(link); e == nil && fi.Mode()&os.ModeSymlink != 0 {
+			_ = os.Remove(link)
+		}
 		if err != nil {
 			return errCode(err)
 		}
@@ -583,16 +616,20 @@ func exec(t []string) string {
 		if st.tx != nil {
 			panic("harness: reopen inside tx")
 		}
-		if err := st.db.Close(); err != nil {
-			panic("harness: close: " + err.Error())
-		}
+		closeErr := st.db.Close()
 		st.db = nil
-		db, err := database.Open("ffldb", st.dir, wire.BitcoinNet(st.net))
+		db, err := openFF(false)
 		if err != nil {
+			if closeErr != nil {
+				return "err close"
+			}
 			return errCode(err)
 		}
 		st.db = db
 		ffldb.VerifSetMaxBlockFileSize(db, st.max)
+		if closeErr != nil {
+			return "err close" // Close of a healthy database must not fail (the directory was reopened anyway)
+		}
 		f, o := ffldb.VerifWriteCursor(db)
 		return fmt.Sprintf("ok %d %d", f, o)
 	case "files":
@@ -707,6 +744,17 @@ func oracle(t []string, out string) *hx.Violation {
 			}
 		} else if !o.tainted {
 			return viol("commit-failed", "Commit answered "+out)
+		}
+		o.pending = nil
+	case "ocommit":
+		// the commit may fail (I/O error on the next block file) or not; either way it is all
+		// or nothing, and what follows must behave as if a failed one never happened
+		if strings.HasPrefix(out, "ok") {
+			for k, v := range o.pending {
+				o.committed[k] = v
+			}
+		} else if out != "err driver" && !o.tainted {
+			return viol("commit-failed", "Commit with a failing block file answered "+out)
 		}
 		o.pending = nil
 	case "rollback":
@@ -932,6 +980,16 @@ func genHistory(g *hx.Gen, max int, nTx int, oversize bool, pokes bool) {
 				g.Emit("rollback")
 				for _, b := range mine {
 					g.Emit("has %s", b.hash)
+				}
+			} else if r.Chance(22) {
+				// I/O failure on the next block file in the middle of the commit
+				if strings.HasPrefix(g.Emit("ocommit"), "ok") {
+					known = append(known, mine...)
+				}
+				g.Emit("files")
+				for _, b := range mine {
+					g.Emit("has %s", b.hash)
+					g.Emit("fetch %s", b.hash)
 				}
 			} else {
 				g.Emit("commit")
